@@ -7,9 +7,9 @@ import zlib
 from lib.coqterm import cbytes, cbool, clist, copt, cN
 
 ID = "C42"
-QUICK_N = 800
-THOROUGH_N = 9000
-SHARD = 100
+QUICK_N = 600
+THOROUGH_N = 5000
+SHARD = 150
 TRANSLATORS = ["flowfilter_atoms"]
 COQ_PRELUDE = "From MV Require Import Model.FilterGrammar.\n"
 RULE = ("62% expression trees (depth <= 5, thorough <= 6; parenthesis / negation nesting bounded because the real parser is exponential in it) over every unary / regex / int operator with arguments from a "
@@ -289,7 +289,7 @@ SOUP = ["~q", "~s", "~a", "~all", "~u", "~h", "~hq", "~b", "~bq", "~c", "~marked
 def gen(rng, n, tier):
     out = []
     maxd = 6 if tier == "thorough" else 5
-    maxnest = 11 if tier == "thorough" else 9
+    maxnest = 10 if tier == "thorough" else 9
     rendered = []
     while len(out) < n:
         r = rng.random()
@@ -678,7 +678,7 @@ def oracle(case, obs):
             return [{"key": "juxtaposition-in-group-rejected", "what": f"parse({s!r}) {j[1]}; with explicit & it is accepted"}]
         if j[0] in ("meaning", "verdict"):
             return [{"key": "juxtaposition-binds-looser-than-or", "what": f"parse({s!r}): {j[1]}; with explicit & it is right"}]
-    if not q_ok and j_ok and a_ok and j[0] in ("rejected", "meaning", "verdict"):
+    if not q_ok and j_ok and a_ok and j[0] in ("rejected", "meaning", "verdict", "invalid-regex-accepted"):
         return [{"key": "quoted-backslash-consumed", "what": f"parse({s!r}): {j[1]}; with doubled backslashes it is right"}]
     return [{"key": "deviation-" + j[0], "what": f"parse({s!r}) {j[1]}"}]
 
